@@ -131,10 +131,10 @@ Proof. exact LazyMutProofs.mut_reads_any_cache. Qed.
 Print Assumptions c19_any_cache_state.
 
 (* ---------------------------------------------------------------------------------------------- *)
-(* REGENERATED FROM THE SOURCE ON EVERY RUN (tools/gen -> Generated.g_code; Decisions.v): the decisions the model
+(* REGENERATED FROM THE SOURCE ON EVERY RUN (tools/gen -> Generated.g_code; DecBase.v, Dec*.v): the decisions the model
    takes at these points are the evaluations of the conditions the Go source has there, for all values of their
    variables. *)
-From GK Require Import GExpr Generated Decisions.
+From GK Require Import GExpr Generated DecBase DecItemRead DecVisit.
 From Coq Require Import String.
 
 (* itemLoc.read: an item is (re)read from the file iff it is not cached, or cached without its value while the value is
@@ -144,12 +144,12 @@ Theorem c19_item_reload_is_source :
     forall cached hasval wv : bool,
       gtrue (upd (upd (upd env0 "icur" (b2z cached)) "icur.Val" (b2z hasval)) "withValue" (b2z wv)) c =
       Some (negb cached || (negb hasval && wv)).
-Proof. exact Decisions.item_reload_decision. Qed.
+Proof. exact DecItemRead.item_reload_decision. Qed.
 Print Assumptions c19_item_reload_is_source.
 
 (* visitNodes reads the item key-only on the way down and re-reads it with exactly the caller's withValue *)
 Theorem c19_visit_item_reads_are_source :
   filter (fun c => String.eqb (fst c) "nItemLoc.read") (calls_a 400 (body "Store.visitNodes")) =
   [("nItemLoc.read", [GVar "t"; GVar "false"]); ("nItemLoc.read", [GVar "t"; GVar "withValue"])].
-Proof. exact Decisions.visit_item_reads. Qed.
+Proof. exact DecVisit.visit_item_reads. Qed.
 Print Assumptions c19_visit_item_reads_are_source.
